@@ -14,3 +14,9 @@ func VerifNewTxV3Sized(from, to module.Address, value, stepLimit *big.Int, ts in
 	tx.bytes = bs
 	return tx
 }
+
+// VerifTxAmounts returns value and step limit of a transaction built by VerifNewTxV3.
+func VerifTxAmounts(t Transaction) (*big.Int, *big.Int) {
+	tx := t.(*transactionV3)
+	return new(big.Int).Set(&tx.Value.Int), new(big.Int).Set(&tx.StepLimit.Int)
+}
